@@ -53,6 +53,12 @@ FAMILIES = {
     # more nodes than max_nodes (an operator raised the desired capacity), tainted nodes that get pods (PreferNoSchedule), grace periods
     "overmax": fam(EnvOn=["Tick", "PodArrive", "PodSchedule", "PodOnTainted", "PodFinish", "ExtTaint", "DesiredBump", "CloudLaunch", "Register"],
                    TaintKinds=["now"], cfg=dict(min=0, max=2, soft=1, hard=3), AsgMin0=0, AsgMax0=3, MaxPend=1, KC=1, KM=1, InitNodes=2, NodeIds=["a1", "a2", "a3"]),
+    # terminated instances stay listed in the ASG (lifecycle state Terminating) until the cloud drops them
+    "linger": fam(EnvOn=["Tick", "ExtTaint", "ExtForce", "Linger", "NodeGone", "Restart"], FaultOps=["delete", "terminate"], MaxFaults=1,
+                  TaintKinds=["zero"], cfg=dict(min=0, max=3), AsgMin0=0, AsgMax0=3, MaxPend=0, KC=1, KM=1, InitNodes=2),
+    # the informer cache lags behind the API: the scan lists stale nodes, writes go to the live objects
+    "lag": fam(EnvOn=["Tick", "PodArrive", "PodFinish", "ExtTaint", "ExtForce", "ExtUntaint", "Lag", "NodeGone"], FaultOps=["update"], MaxFaults=1,
+               TaintKinds=["now"], cfg=dict(min=0, max=3), AsgMin0=0, AsgMax0=3, MaxPend=1, KC=1, KM=1, InitNodes=2),
     # an operator edits the ASG bounds of a group whose min / max are configured (not discovered)
     "asgedit": fam(EnvOn=["Tick", "PodArrive", "PodFinish", "AsgEdit", "CloudLaunch", "Register"],
                    cfg=dict(min=0, max=2), AsgMin0=0, AsgMax0=3, AsgBoundsSet=[[0, 1], [0, 2], [0, 3], [0, 4]], MaxPend=3, InitNodes=1),
@@ -67,6 +73,9 @@ FAMILIES = {
 # "for every cluster state" families: every well-typed state over small value sets is an initial state, one scan from each
 FAMILIES["all_reap"] = fam(av=dict(minNodes=1, cordoned=[False, True], force=[False, True], nodel=[False, True], taint=[-1, -2, -3, 0, 1, 2, 3], run=[0, 1], extra=[0, 1], lost=[False, True]),
                            FaultOps=["terminate", "delete"], MaxFaults=1, cfg=dict(min=0), KC=4, KM=4, AsgMin0=0)
+# every state of a group that has more nodes than max_nodes: the scan must not act on it at all
+FAMILIES["all_overmax"] = fam(av=dict(minNodes=2, cordoned=[False, True], force=[False, True], nodel=[False], taint=[-1, -2, 0, 1, 2, 3], run=[0, 1], pend=[0, 1], extra=[0], lost=[False], lock=[-1, 1]),
+                              FaultOps=["terminate"], MaxFaults=1, cfg=dict(min=0, max=1), KC=4, KM=4, AsgMin0=0, emit=1)
 FAMILIES["all_annot"] = fam(av=dict(minNodes=1, cordoned=[False], force=[False, True], nodel=[False, True], taint=[-1, 1, 2, 3], run=[0, 1], extra=[0], lost=[False]),
                             FaultOps=[], MaxFaults=0, cfg=dict(min=0), KC=4, KM=4, AsgMin0=0, emit=1)
 FAMILIES["all_scale"] = fam(av=dict(minNodes=0, created=[3, 4], cordoned=[False, True], force=[False, True], taint=[-1, 0, 2], run=[0, 1, 2], pend=[0, 1, 3], extra=[0, 1], lock=[-1, 0, 1, 2], delta=[0, 1]),
@@ -88,6 +97,7 @@ TIER_OVERRIDES = {
     ("reap", "thorough"): dict(KC=1, KM=1, EnvOn=["Tick", "PodArrive", "PodSchedule", "PodFinish", "ExtTaint", "Restart", "NodeGone"], TaintKinds=["now", "bad", "zero"]),
     ("force", "thorough"): dict(KC=1, KM=1, EnvOn=["Tick", "PodArrive", "PodSchedule", "PodFinish", "ExtForce", "ExtUnforce", "ExtTaint", "Restart"], TaintKinds=["now"], FaultOps=["terminate", "delete", "crash"]),
     ("annot", "quick"): dict(KC=1, KM=1),
+    ("lag", "quick"): dict(EnvOn=["Tick", "PodArrive", "ExtTaint", "ExtForce", "ExtUntaint", "Lag", "NodeGone"], FaultOps=[], MaxFaults=0),
     ("cordon", "quick"): dict(KC=1, KM=1, EnvOn=["Tick", "PodArrive", "PodSchedule", "PodFinish", "Cordon", "Uncordon", "ExtTaint", "ExtForce"]),
     ("lock", "quick"): dict(KC=1, KM=1, MaxPend=1, EnvOn=["Tick", "PodArrive", "PodFinish", "CloudLaunch", "Register", "Cordon", "ExtForce", "Restart"]),
     ("updown", "quick"): dict(MaxPend=2, EnvOn=["Tick", "PodArrive", "PodSchedule", "PodFinish", "CloudLaunch", "Register"], FaultOps=["get", "update"]),
